@@ -287,4 +287,105 @@ theorem tmplO_sound : ∀ (t c : OTy) (b b' : List (String × Ty)), isTemplateO 
       exact ⟨hH.1, fun b'' hb => by simp only [bindO, eraseLtO, hH.2 b'' hb]⟩
 end
 
+
+/-! ### Equivalence -/
+
+theorem idOf_snd (g : List String) (x : String) : (idOf g x).2 = insertNew g x := by
+  unfold idOf insertNew; split <;> rfl
+
+/- The generators' states after a successful comparison are the names met so far, in first-seen
+   order — the same walk as `unassigned_generic_type_parameters`. -/
+mutual
+theorem equivGo_state : ∀ (a b : Ty) (s s' : List String × List String), equivGo a b s = some s' →
+    s' = (unassigned a s.1, unassigned b s.2)
+  | .path al p i bs as, b, s, s', h => by
+      cases b <;> simp [equivGo] at h
+      simp only [unassigned]; exact equivArgs_state _ _ _ _ h.2
+  | .ref m l t, b, s, s', h => by
+      cases b <;> simp [equivGo] at h
+      simp only [unassigned]; exact equivGo_state _ _ _ _ h.2
+  | .tuple es, b, s, s', h => by
+      cases b <;> simp [equivGo] at h
+      simp only [unassigned]; exact equivTys_state _ _ _ _ h
+  | .scalar x, b, s, s', h => by
+      cases b <;> simp [equivGo] at h
+      simp only [unassigned]; rw [← h.2]
+  | .slice e, b, s, s', h => by
+      cases b <;> simp [equivGo] at h
+      simp only [unassigned]; exact equivGo_state _ _ _ _ h
+  | .array e n, b, s, s', h => by
+      cases b <;> simp [equivGo] at h
+      simp only [unassigned]; exact equivGo_state _ _ _ _ h.2
+  | .rawPtr m t, b, s, s', h => by
+      cases b <;> simp [equivGo] at h
+      simp only [unassigned]; exact equivGo_state _ _ _ _ h.2
+  | .fnPtr ins out abi u, b, s, s', h => by
+      cases b <;> simp [equivGo] at h
+      obtain ⟨_, h⟩ := h
+      split at h
+      · rename_i s1 h1
+        have e1 := equivIns_state _ _ _ _ h1
+        have e2 := equivO_state _ _ _ _ h
+        simp only [unassigned]; rw [e2, e1]
+      · cases h
+  | .generic x, b, s, s', h => by
+      cases b <;> simp [equivGo] at h
+      simp only [unassigned, ← idOf_snd]; rw [← h.2]
+theorem equivArgs_state : ∀ (a b : GArgs) (s s' : List String × List String), equivArgs a b s = some s' →
+    s' = (unassignedArgs a s.1, unassignedArgs b s.2)
+  | .nil, b, s, s', h => by
+      cases b <;> simp [equivArgs] at h
+      simp only [unassignedArgs]; rw [← h]
+  | .ty t r, b, s, s', h => by
+      cases b <;> simp only [equivArgs] at h <;> try cases h
+      split at h
+      · rename_i s1 h1
+        have e1 := equivGo_state _ _ _ _ h1
+        have e2 := equivArgs_state _ _ _ _ h
+        simp only [unassignedArgs]; rw [e2, e1]
+      · cases h
+  | .lt l r, b, s, s', h => by
+      cases b <;> simp only [equivArgs] at h <;> try cases h
+      simp only [unassignedArgs]; exact equivArgs_state _ _ _ _ h
+  | .const v r, b, s, s', h => by
+      cases b <;> simp only [equivArgs] at h <;> try cases h
+      split at h
+      · simp only [unassignedArgs]; exact equivArgs_state _ _ _ _ h
+      · cases h
+theorem equivTys_state : ∀ (a b : Tys) (s s' : List String × List String), equivTys a b s = some s' →
+    s' = (unassignedTys a s.1, unassignedTys b s.2)
+  | .nil, b, s, s', h => by
+      cases b <;> simp [equivTys] at h
+      simp only [unassignedTys]; rw [← h]
+  | .cons t r, b, s, s', h => by
+      cases b <;> simp only [equivTys] at h <;> try cases h
+      split at h
+      · rename_i s1 h1
+        have e1 := equivGo_state _ _ _ _ h1
+        have e2 := equivTys_state _ _ _ _ h
+        simp only [unassignedTys]; rw [e2, e1]
+      · cases h
+theorem equivIns_state : ∀ (a b : FnIns) (s s' : List String × List String), equivIns a b s = some s' →
+    s' = (unassignedIns a s.1, unassignedIns b s.2)
+  | .nil, b, s, s', h => by
+      cases b <;> simp [equivIns] at h
+      simp only [unassignedIns]; rw [← h]
+  | .cons n t r, b, s, s', h => by
+      cases b <;> simp only [equivIns] at h <;> try cases h
+      split at h
+      · rename_i s1 h1
+        have e1 := equivGo_state _ _ _ _ h1
+        have e2 := equivIns_state _ _ _ _ h
+        simp only [unassignedIns]; rw [e2, e1]
+      · cases h
+theorem equivO_state : ∀ (a b : OTy) (s s' : List String × List String), equivO a b s = some s' →
+    s' = (unassignedO a s.1, unassignedO b s.2)
+  | .none, b, s, s', h => by
+      cases b <;> simp [equivO] at h
+      simp only [unassignedO]; rw [← h]
+  | .some t, b, s, s', h => by
+      cases b <;> simp only [equivO] at h <;> try cases h
+      simp only [unassignedO]; exact equivGo_state _ _ _ _ h
+end
+
 end Pxv.Ty
